@@ -23,11 +23,13 @@ mv /tmp/$DEMON.rs avro/tests/
 cargo test --offline -p apache-avro --test $DEMON > /tmp/seed-demo-without.log 2>&1; RC_WITHOUT=$?
 echo "demo_with_change_rc=$RC_WITH (expect !=0) demo_without_change_rc=$RC_WITHOUT (expect 0) suite_with_change_rc=$RC_SUITE ok_binaries=$SUITE_OK failed_binaries=$SUITE_FAIL" >> $LOG
 cd /repo && git worktree remove --force $WT
-# detection
-cd /repo && git apply $SEED/patch.diff
+# detection: against a scratch worktree of /repo with the change applied (own build dir), /repo itself stays untouched
+SR=/tmp/seedrepo-$NAME
+cd /repo && git worktree add -q $SR HEAD && cd $SR && git apply $SEED/patch.diff
 cd /verif
+export VERIF_REPO=$SR VERIF_BUILD=/verif/.build-seed VERIF_EVIDENCE=/verif/seeded/$NAME VERIF_REPLAYS=/verif/seeded/$NAME/replays
 if [ -n "$ONLY" ]; then ./check $PROP --tier thorough --only "$ONLY" > /verif/seeded/$NAME/check.log 2>&1; else ./check $PROP > /verif/seeded/$NAME/check.log 2>&1; fi
 echo "check_rc=$? $(grep -c '^VIOLATION' /verif/seeded/$NAME/check.log) violation lines" >> $LOG
-cp /verif/evidence/$PROP.json /verif/seeded/$NAME/evidence_with_change.json 2>/dev/null
-git -C /repo checkout -- .
+mv /verif/seeded/$NAME/$PROP.json /verif/seeded/$NAME/evidence_with_change.json 2>/dev/null
+cd /repo && git worktree remove --force $SR
 cat $LOG
